@@ -167,3 +167,332 @@ func verifSpecHandledSelect(current Identifier, qualified bool, qualifier Identi
 //@ func parser.FilterValues [C10]
 //@   requires stmt != nil
 //@   modifies nothing
+
+// ---------------------------------------------------------------------------------------------
+// C06: the idempotency classifier (recursive descent over the abstract lexer)
+//   (T) every function terminates and is free of panics: loops and the mutual recursion of the term
+//       parsers carry measures over the unread input (l.pe - l.p) and a rank;
+//   (E) an error is never reported as idempotent;
+//   (P) a non-idempotent verdict of a sub-parser is never turned into an idempotent one
+//       ($sawNI records that a callee said "not idempotent");
+//   (F) the local rules: non-idempotent functions, update-operation and delete-element term types,
+//       IF clauses, COUNTER batches, statement kinds.
+// ---------------------------------------------------------------------------------------------
+
+// "now()/uuid() ... anywhere in a term" - unqualified or qualified with system.
+func verifSpecNonIdempotentFunc(name Identifier) bool { return name.equal("uuid") || name.equal("now") }
+
+//@ loop parser.isNonIdempotentFunc #1
+//@   invariant forall(k, 0, rangeindex + 1, !name.equal(nonIdempotentFuncs[k]))
+//@ func parser.isNonIdempotentFunc [C06]
+//@   ensures result == verifSpecNonIdempotentFunc(name)
+//@   modifies nothing
+
+// "list append/prepend ... and ambiguous col = col +/- bind-marker/function": only set/map/UDT and
+// tuple literals are safe operands of +, -, += and -=.
+//@ func parser.isIdempotentUpdateOpTermType [C06]
+//@   ensures result == (typ == termSetMapUdtLiteral || typ == termTupleLiteral)
+//@   modifies nothing
+
+// "delete-by-index": an integer literal, a bind marker, a function call or a cast may be a list index.
+//@ func parser.isIdempotentDeleteElementTermType [C06]
+//@   ensures result == !(typ == termIntegerLiteral || typ == termBindMarker || typ == termFunctionCall || typ == termCast)
+//@   modifies nothing
+
+//@ loop parser.parseIdentifiers #1
+//@   invariant inv(l) && l.data == old(l.data) && l.pe == old(l.pe) && l.p >= old(l.p)
+//@   decreases l.pe - l.p, ite(t == tkEOF, 0, 1)
+//@ func parser.parseIdentifiers [C06]
+//@   requires l != nil && inv(l)
+//@   ensures inv(l) && l.data == old(l.data) && l.pe == old(l.pe) && l.p >= old(l.p)
+//@   ensures first-token: err == nil ==> t == tkRparen || t == tkIdentifier
+//@   modifies l.p, l.id
+
+//@ loop parser.parseType #1
+//@   invariant inv(l) && l.data == old(l.data) && l.pe == old(l.pe) && l.p >= old(l.p)
+//@   decreases l.pe - l.p, ite(t == tkEOF, 0, 1)
+//@ func parser.parseType [C06]
+//@   requires l != nil && inv(l)
+//@   ensures inv(l) && l.data == old(l.data) && l.pe == old(l.pe) && l.p >= old(l.p)
+//@   ensures err != nil ==> t == tkInvalid
+//@   modifies l.p, l.id
+
+// ---- terms (mutually recursive) ----
+
+//@ func parser.parseTerm [C06]
+//@   local $sawNI bool = false
+//@   requires l != nil && inv(l)
+//@   decreases l.pe - l.p, ite(t == tkLsquare || t == tkLcurly || t == tkLparen || t == tkIdentifier, 2, 0)
+//@   after parser.parseListTerm#* set $sawNI = $sawNI || !result0
+//@   after parser.parseUDTTerm#* set $sawNI = $sawNI || !result0
+//@   after parser.parseSetOrMapTerm#* set $sawNI = $sawNI || !result0
+//@   after parser.parseCastTerm#* set $sawNI = $sawNI || !result0
+//@   after parser.parseTupleTerm#* set $sawNI = $sawNI || !result0
+//@   after parser.parseFunctionTerm#* set $sawNI = $sawNI || !result0
+//@   ensures inv(l) && l.data == old(l.data) && l.pe == old(l.pe) && l.p >= old(l.p)
+//@   ensures error-not-idempotent: err != nil ==> !idempotent
+//@   ensures propagation: idempotent ==> !$sawNI
+//@   ensures literals: idempotent && (t == tkInteger) ==> typ == termIntegerLiteral
+//@   ensures bind-markers: idempotent && (t == tkQMark || t == tkColon) ==> typ == termBindMarker
+//@   ensures functions: idempotent && t == tkIdentifier ==> typ == termFunctionCall
+//@   ensures lists: idempotent && t == tkLsquare ==> typ == termListLiteral
+//@   ensures unknown-token: t == tkEOF || t == tkInvalid ==> !idempotent && err != nil
+//@   ensures term-start: idempotent ==> t == tkInteger || t == tkFloat || t == tkBool || t == tkNull || t == tkStringLiteral || t == tkHexNumber || t == tkUuid || t == tkDuration || t == tkNan || t == tkInfinity || t == tkColon || t == tkQMark || t == tkLsquare || t == tkLcurly || t == tkLparen || t == tkIdentifier
+//@   modifies l.p, l.id, l.m
+
+//@ loop parser.parseListTerm #1
+//@   invariant inv(l) && l.data == old(l.data) && l.pe == old(l.pe) && l.p >= old(l.p) && !$sawNI && (t != tkEOF ==> l.p > old(l.p))
+//@   decreases l.pe - l.p, ite(t == tkEOF, 0, 1)
+//@ func parser.parseListTerm [C06]
+//@   local $sawNI bool = false
+//@   requires l != nil && inv(l)
+//@   decreases l.pe - l.p, 1
+//@   after parser.parseTerm#* set $sawNI = $sawNI || !result0
+//@   ensures inv(l) && l.data == old(l.data) && l.pe == old(l.pe) && l.p >= old(l.p)
+//@   ensures error-not-idempotent: err != nil ==> !idempotent
+//@   ensures propagation: idempotent ==> !$sawNI
+//@   ensures typ == termListLiteral
+//@   modifies l.p, l.id, l.m
+
+//@ loop parser.parseUDTTerm #1
+//@   invariant inv(l) && l.data == old(l.data) && l.pe == old(l.pe) && l.p >= old(l.p) && !$sawNI && (t == tkEOF || l.p > old(l.p) || (l.p == old(l.p) && t == old(t)))
+//@   decreases l.pe - l.p, ite(t == tkEOF, 0, 1)
+//@ func parser.parseUDTTerm [C06]
+//@   local $sawNI bool = false
+//@   requires l != nil && inv(l)
+//@   decreases l.pe - l.p, ite(t == tkEOF, 0, 3)
+//@   after parser.parseTerm#* set $sawNI = $sawNI || !result0
+//@   ensures inv(l) && l.data == old(l.data) && l.pe == old(l.pe) && l.p >= old(l.p)
+//@   ensures error-not-idempotent: err != nil ==> !idempotent
+//@   ensures propagation: idempotent ==> !$sawNI
+//@   ensures typ == termSetMapUdtLiteral
+//@   modifies l.p, l.id, l.m
+
+//@ loop parser.parseSetOrMapTerm #1
+//@   invariant inv(l) && l.data == old(l.data) && l.pe == old(l.pe) && l.p >= old(l.p) && !$sawNI && (t == tkEOF || l.p > old(l.p) || (l.p == old(l.p) && t == old(t)))
+//@   decreases l.pe - l.p, ite(t == tkEOF, 0, 1)
+//@ func parser.parseSetOrMapTerm [C06]
+//@   local $sawNI bool = false
+//@   requires l != nil && inv(l)
+//@   decreases l.pe - l.p, ite(t == tkEOF, 0, 3)
+//@   after parser.parseTerm#* set $sawNI = $sawNI || !result0
+//@   ensures inv(l) && l.data == old(l.data) && l.pe == old(l.pe) && l.p >= old(l.p)
+//@   ensures error-not-idempotent: err != nil ==> !idempotent
+//@   ensures propagation: idempotent ==> !$sawNI
+//@   ensures typ == termSetMapUdtLiteral
+//@   modifies l.p, l.id, l.m
+
+//@ func parser.parseCastTerm [C06]
+//@   local $sawNI bool = false
+//@   requires l != nil && inv(l)
+//@   decreases l.pe - l.p, 1
+//@   after parser.parseTerm#* set $sawNI = $sawNI || !result0
+//@   ensures inv(l) && l.data == old(l.data) && l.pe == old(l.pe) && l.p >= old(l.p)
+//@   ensures error-not-idempotent: err != nil ==> !idempotent
+//@   ensures propagation: idempotent ==> !$sawNI
+//@   ensures typ == termCast
+//@   modifies l.p, l.id, l.m
+
+//@ loop parser.parseTupleTerm #1
+//@   invariant inv(l) && l.data == old(l.data) && l.pe == old(l.pe) && l.p >= old(l.p) && !$sawNI && (t == tkEOF || l.p > old(l.p) || (l.p == old(l.p) && t == old(t)))
+//@   decreases l.pe - l.p, ite(t == tkEOF, 0, 1)
+//@ func parser.parseTupleTerm [C06]
+//@   local $sawNI bool = false
+//@   requires l != nil && inv(l)
+//@   decreases l.pe - l.p, ite(t == tkEOF, 0, 3)
+//@   after parser.parseTerm#* set $sawNI = $sawNI || !result0
+//@   ensures inv(l) && l.data == old(l.data) && l.pe == old(l.pe) && l.p >= old(l.p)
+//@   ensures error-not-idempotent: err != nil ==> !idempotent
+//@   ensures propagation: idempotent ==> !$sawNI
+//@   ensures typ == termTupleLiteral
+//@   modifies l.p, l.id, l.m
+
+// A function call is not idempotent if it is now()/uuid() - unqualified or in keyspace system - or if
+// one of its argument terms is not idempotent.
+//@ loop parser.parseFunctionTerm #1
+//@   invariant inv(l) && l.data == old(l.data) && l.pe == old(l.pe) && l.p >= old(l.p) && !$sawNI && (t != tkEOF ==> l.p > old(l.p)) && $ftParsed
+//@   decreases l.pe - l.p, ite(t == tkEOF, 0, 1)
+//@ func parser.parseFunctionTerm [C06]
+//@   local $sawNI bool = false
+//@   local $ftParsed bool = false
+//@   local $ftKs Identifier = IdentifierFromString("")
+//@   local $ftTarget Identifier = IdentifierFromString("")
+//@   requires l != nil && inv(l)
+//@   decreases l.pe - l.p, 1
+//@   after parser.parseQualifiedIdentifier#1 set $ftParsed = (result3 == nil); $ftKs = result0; $ftTarget = result1
+//@   after parser.parseTerm#* set $sawNI = $sawNI || !result0
+//@   ensures inv(l) && l.data == old(l.data) && l.pe == old(l.pe) && l.p >= old(l.p)
+//@   ensures error-not-idempotent: err != nil ==> !idempotent
+//@   ensures propagation: idempotent ==> !$sawNI
+//@   ensures non-idempotent-functions: idempotent ==> $ftParsed && !(verifSpecNonIdempotentFunc($ftTarget) && (len($ftKs.id) == 0 || $ftKs.equal("system")))
+//@   ensures typ == termFunctionCall
+//@   modifies l.p, l.id, l.m
+
+// ---- relations, update operations ----
+
+//@ loop parser.parseRelation #1
+//@   invariant inv(l) && l.data == old(l.data) && l.pe == old(l.pe) && l.p > old(l.p) && !$sawNI
+//@   decreases l.pe - l.p, ite(t == tkEOF, 0, 1)
+//@ func parser.parseRelation [C06]
+//@   local $sawNI bool = false
+//@   requires l != nil && inv(l)
+//@   decreases l.pe - l.p, ite(t == tkLparen, 2, 0)
+//@   after parser.parseTerm#* set $sawNI = $sawNI || !result0
+//@   after parser.parseRelation#* set $sawNI = $sawNI || !result0
+//@   after parser.parseIdentifiersRelation#* set $sawNI = $sawNI || !result0
+//@   ensures inv(l) && l.data == old(l.data) && l.pe == old(l.pe) && l.p >= old(l.p)
+//@   ensures error-not-idempotent: err != nil ==> !idempotent
+//@   ensures propagation: idempotent ==> !$sawNI
+//@   modifies l.p, l.id, l.m
+
+//@ loop parser.parseIdentifiersRelation #1
+//@   invariant inv(l) && l.data == old(l.data) && l.pe == old(l.pe) && l.p >= old(l.p) && !$sawNI
+//@   decreases l.pe - l.p, ite(t == tkEOF, 0, 1)
+//@ func parser.parseIdentifiersRelation [C06]
+//@   local $sawNI bool = false
+//@   requires l != nil && inv(l)
+//@   after parser.parseTerm#* set $sawNI = $sawNI || !result0
+//@   ensures inv(l) && l.data == old(l.data) && l.pe == old(l.pe) && l.p >= old(l.p)
+//@   ensures error-not-idempotent: err != nil ==> !idempotent
+//@   ensures propagation: idempotent ==> !$sawNI
+//@   modifies l.p, l.id, l.m
+
+//@ loop parser.parseWhereClause #1
+//@   invariant inv(l) && l.data == old(l.data) && l.pe == old(l.pe) && l.p >= old(l.p) && !$sawNI
+//@   decreases l.pe - l.p, ite(t == tkEOF, 0, 1)
+//@ func parser.parseWhereClause [C06]
+//@   local $sawNI bool = false
+//@   requires l != nil && inv(l)
+//@   after parser.parseRelation#* set $sawNI = $sawNI || !result0
+//@   ensures inv(l) && l.data == old(l.data) && l.pe == old(l.pe) && l.p >= old(l.p)
+//@   ensures error-not-idempotent: err != nil ==> !idempotent
+//@   ensures propagation: idempotent ==> !$sawNI
+//@   ensures stops-at: idempotent ==> t == tkIf || t == tkEOF || t == tkEOS || t == tkInsert || t == tkUpdate || t == tkDelete || t == tkApply
+//@   modifies l.p, l.id, l.m
+
+// Update operations: "counter updates, list append/prepend/remove and ambiguous col = col +/- ..."
+//   $uoOperandType: the term type of the operand of + / - / += / -= when such an operator is present
+//@ func parser.parseUpdateOp [C06]
+//@   local $sawNI bool = false
+//@   local $uoArith bool = false
+//@   local $uoTyp termType = termInvalid
+//@   requires l != nil && inv(l)
+//@   after parser.parseTerm#* set $sawNI = $sawNI || !result0
+//@   after parser.isIdempotentUpdateOpTermType#* set $uoArith = true; $uoTyp = arg0
+//@   ensures inv(l) && l.data == old(l.data) && l.pe == old(l.pe) && l.p >= old(l.p)
+//@   ensures error-not-idempotent: err != nil ==> !idempotent
+//@   ensures propagation: idempotent ==> !$sawNI
+//@   ensures arithmetic-operands: idempotent && $uoArith ==> $uoTyp == termSetMapUdtLiteral || $uoTyp == termTupleLiteral
+//@   ensures needs-identifier: t != tkIdentifier ==> !idempotent
+//@   modifies l.p, l.id, l.m
+
+//@ func parser.parseUsingClause [C06]
+//@   requires l != nil && inv(l)
+//@   ensures inv(l) && l.data == old(l.data) && l.pe == old(l.pe) && l.p >= old(l.p)
+//@   ensures err != nil ==> next == tkInvalid
+//@   modifies l.p, l.id, l.m
+
+// ---- statements ----
+
+//@ loop parser.isIdempotentInsertStmt #1
+//@   invariant inv(l) && l.data == old(l.data) && l.pe == old(l.pe) && !$sawNI && l.p > old(l.p) && (!$sawIf || t == tkIf)
+//@   decreases l.pe - l.p, ite(t == tkEOF, 0, 1)
+//@ loop parser.isIdempotentInsertStmt #2
+//@   invariant inv(l) && l.data == old(l.data) && l.pe == old(l.pe) && !$sawNI && l.p > old(l.p) && (!$sawIf || t == tkIf)
+//@   decreases l.pe - l.p, ite(t == tkEOF, 0, 1)
+//@ func parser.isIdempotentInsertStmt [C06]
+//@   local $sawNI bool = false
+//@   local $sawIf bool = false
+//@   after parser.lexer.next#* set $sawIf = $sawIf || result == tkIf
+//@   ensures lightweight-transaction: idempotent ==> !$sawIf
+//@   ensures progress: idempotent ==> l.p > old(l.p)
+//@   requires l != nil && inv(l)
+//@   after parser.parseTerm#* set $sawNI = $sawNI || !result0
+//@   ensures inv(l) && l.data == old(l.data) && l.pe == old(l.pe)
+//@   ensures error-not-idempotent: err != nil ==> !idempotent
+//@   ensures propagation: idempotent ==> !$sawNI
+//@   ensures ends-at-terminator: idempotent ==> t == tkEOF || t == tkEOS || t == tkInsert || t == tkUpdate || t == tkDelete || t == tkApply
+//@   modifies l.p, l.id, l.m
+
+//@ loop parser.isIdempotentUpdateStmt #2
+//@   invariant inv(l) && l.data == old(l.data) && l.pe == old(l.pe) && !$sawNI && l.p > old(l.p) && (!$sawIf || t == tkIf)
+//@   decreases l.pe - l.p, ite(t == tkEOF, 0, 1)
+//@ loop parser.isIdempotentUpdateStmt #3
+//@   invariant inv(l) && l.data == old(l.data) && l.pe == old(l.pe) && !$sawNI && l.p > old(l.p) && (!$sawIf || t == tkIf)
+//@   decreases l.pe - l.p, ite(t == tkEOF, 0, 1)
+//@ func parser.isIdempotentUpdateStmt [C06]
+//@   local $sawNI bool = false
+//@   local $sawIf bool = false
+//@   after parser.lexer.next#* set $sawIf = $sawIf || result == tkIf
+//@   ensures lightweight-transaction: idempotent ==> !$sawIf
+//@   ensures progress: idempotent ==> l.p > old(l.p)
+//@   requires l != nil && inv(l)
+//@   after parser.parseUpdateOp#* set $sawNI = $sawNI || !result0
+//@   after parser.parseWhereClause#* set $sawNI = $sawNI || !result0
+//@   ensures inv(l) && l.data == old(l.data) && l.pe == old(l.pe)
+//@   ensures error-not-idempotent: err != nil ==> !idempotent
+//@   ensures propagation: idempotent ==> !$sawNI
+//@   ensures ends-at-terminator: idempotent ==> t == tkEOF || t == tkEOS || t == tkInsert || t == tkUpdate || t == tkDelete || t == tkApply
+//@   modifies l.p, l.id, l.m
+
+//@ loop parser.isIdempotentDeleteStmt #1
+//@   invariant inv(l) && l.data == old(l.data) && l.pe == old(l.pe) && !$sawNI && !$delBadIndex && (!$sawIf || t == tkIf) && (t != tkEOF ==> l.p > old(l.p))
+//@   decreases l.pe - l.p, ite(t == tkEOF, 0, 1)
+//@ loop parser.isIdempotentDeleteStmt #2
+//@   invariant inv(l) && l.data == old(l.data) && l.pe == old(l.pe) && !$sawNI && l.p > old(l.p) && (!$sawIf || t == tkIf) && !$delBadIndex
+//@   decreases l.pe - l.p, ite(t == tkEOF, 0, 1)
+//@ func parser.isIdempotentDeleteStmt [C06]
+//@   local $sawNI bool = false
+//@   local $sawIf bool = false
+//@   after parser.lexer.next#* set $sawIf = $sawIf || result == tkIf
+//@   ensures lightweight-transaction: idempotent ==> !$sawIf
+//@   ensures progress: idempotent ==> l.p > old(l.p)
+//@   local $delBadIndex bool = false
+//@   requires l != nil && inv(l)
+//@   after parser.parseTerm#* set $sawNI = $sawNI || !result0
+//@   after parser.parseWhereClause#* set $sawNI = $sawNI || !result0
+//@   after parser.isIdempotentDeleteElementTermType#* set $delBadIndex = $delBadIndex || !result
+//@   ensures inv(l) && l.data == old(l.data) && l.pe == old(l.pe)
+//@   ensures error-not-idempotent: err != nil ==> !idempotent
+//@   ensures propagation: idempotent ==> !$sawNI
+//@   ensures delete-by-index: idempotent ==> !$delBadIndex
+//@   ensures ends-at-terminator: idempotent ==> t == tkEOF || t == tkEOS || t == tkInsert || t == tkUpdate || t == tkDelete || t == tkApply
+//@   modifies l.p, l.id, l.m
+
+//@ loop parser.isIdempotentBatchStmt #1
+//@   invariant inv(l) && l.data == old(l.data) && l.pe == old(l.pe) && !$sawNI
+//@   decreases l.pe - l.p, ite(t == tkEOF || t == tkApply, 0, 1)
+//@ func parser.isIdempotentBatchStmt [C06]
+//@   local $sawNI bool = false
+//@   requires l != nil && inv(l)
+//@   after parser.isIdempotentInsertStmt#* set $sawNI = $sawNI || !result0
+//@   after parser.isIdempotentUpdateStmt#* set $sawNI = $sawNI || !result0
+//@   after parser.isIdempotentDeleteStmt#* set $sawNI = $sawNI || !result0
+//@   ensures inv(l) && l.data == old(l.data) && l.pe == old(l.pe)
+//@   ensures error-not-idempotent: err != nil ==> !idempotent
+//@   ensures propagation: idempotent ==> !$sawNI
+//@   modifies l.p, l.id, l.m
+
+// isIdempotentStmt: SELECT is idempotent; USE/CREATE/ALTER/DROP and unknown statements are not; a
+// mutation is idempotent only if its parser said so and the statement ended cleanly.
+//@ func parser.isIdempotentStmt [C06]
+//@   local $sawNI bool = false
+//@   requires l != nil && inv(l)
+//@   after parser.isIdempotentInsertStmt#* set $sawNI = $sawNI || !result0
+//@   after parser.isIdempotentUpdateStmt#* set $sawNI = $sawNI || !result0
+//@   after parser.isIdempotentDeleteStmt#* set $sawNI = $sawNI || !result0
+//@   after parser.isIdempotentBatchStmt#* set $sawNI = $sawNI || !result0
+//@   ensures error-not-idempotent: err != nil ==> !idempotent
+//@   ensures propagation: idempotent ==> !$sawNI
+//@   ensures select: t == tkSelect ==> idempotent && err == nil
+//@   ensures ddl-and-use: t == tkUse || t == tkCreate || t == tkAlter || t == tkDrop ==> !idempotent
+//@   ensures only-known-statements: idempotent ==> t == tkSelect || t == tkInsert || t == tkUpdate || t == tkDelete || t == tkBegin
+//@   modifies l.p, l.id, l.m
+
+
+// IsQueryIdempotent: errors are never idempotent (verified); as a Go function of its argument only,
+// its verdict is a function of the text (the definitional clause C04 builds on).
+//@ func parser.IsQueryIdempotent [C04, C06]
+//@   ensures error-not-idempotent: err != nil ==> !idempotent
+//@   defines idempotent == (ufBool("idem.text", query) && err == nil)
+//@   modifies nothing
